@@ -99,6 +99,23 @@ var transSpecs = []transSpec{
 				"Core.Check":            {kind: "mutext", f: "Core.Check", res: []string{"CheckedEntry"}},
 			}},
 	}},
+	{table: "TransMultiWS", funcs: []transFunc{
+		{file: "zapcore/write_syncer.go", recv: "multiWriteSyncer", name: "Write", lean: "Write",
+			recvAs: &fieldSpec{"ws", "[]WriteSyncer"},
+			fields: map[string]fieldSpec{"#writes": {"writes", "[]Call"}}, // pseudo-field: what each sink's Write was handed
+			calls: map[string]shim{
+				// a sink is a value that scripts its own outcome: Write(p) returns (n, err) read off the sink
+				"WriteSyncer.Write": {kind: "extstmt", f: "sink.Write", res: []string{"int", "error"}, trace: "#writes"},
+				// multierr.Append keeps every non-nil error in order: errors are lists, Append is concatenation
+				"multierr.Append": {kind: "builtin", f: "append...", res: []string{"error"}},
+			}},
+		{file: "zapcore/write_syncer.go", recv: "multiWriteSyncer", name: "Sync", lean: "Sync",
+			recvAs: &fieldSpec{"ws", "[]WriteSyncer"},
+			calls: map[string]shim{
+				"WriteSyncer.Sync": {kind: "ext", f: "sink.Sync", res: []string{"error"}},
+				"multierr.Append":  {kind: "builtin", f: "append...", res: []string{"error"}},
+			}},
+	}},
 	{table: "TransJsonSep", funcs: []transFunc{
 		{file: "zapcore/json_encoder.go", recv: "jsonEncoder", name: "addElementSeparator", lean: "addElementSeparator",
 			fields: jsonEncFields, calls: bufferCalls},
